@@ -312,7 +312,7 @@ fn hist_json(h: &[Op]) -> Value {
 /// over a small menu; after every edit every module is formatted and hovered at a few positions
 /// (formatting prints every identifier: a string the collector freed while it is still referenced
 /// aborts the request).
-fn big_workspace_histories(depth: usize, violations: &mut Vec<(String, String, Value)>) -> (u64, u64) {
+fn big_workspace_histories(n_initial: usize, menu_ops: &[usize], depth: usize, violations: &mut Vec<(String, String, Value)>) -> (u64, u64) {
   let module_text = |i: usize, variant: usize| -> String {
     let mut t = format!("class ClassNumber{i}WithAVeryLongName {{\n");
     for j in 0..100 {
@@ -321,9 +321,9 @@ fn big_workspace_histories(depth: usize, violations: &mut Vec<(String, String, V
     t.push_str("}\n");
     t
   };
-  // exactly one marking slice worth of modules at first: sweep cycles do start, and the menu can
-  // then push the module count over the slice size while a cycle is in flight
-  let n_initial = 100usize;
+  // n_initial = 100: exactly one marking slice worth of modules at first (sweep cycles do start, and
+  // the menu can then push the module count over the slice size while a cycle is in flight);
+  // n_initial = 150: every mark cycle spans two edits from the start
   // menu: re-save one module unchanged, change it (100 fresh names), add a new module, remove one
   let menu = ["resave(M0)", "change(M0)", "change(all)", "add(M200)", "add(M201..M204)", "remove(M1)", "rename(M2->M300)"];
   let mut histories: Vec<Vec<usize>> = vec![vec![]];
@@ -331,9 +331,9 @@ fn big_workspace_histories(depth: usize, violations: &mut Vec<(String, String, V
   for _ in 0..depth {
     let mut next = vec![];
     for h in &level {
-      for o in 0..menu.len() {
+      for o in menu_ops {
         let mut h2 = h.clone();
-        h2.push(o);
+        h2.push(*o);
         next.push(h2);
       }
     }
@@ -387,8 +387,8 @@ fn big_workspace_histories(depth: usize, violations: &mut Vec<(String, String, V
             if let Err(e) = q {
               return Some((
                 format!("big-workspace:{e}"),
-                format!("after {} (step {step}) a request on {name} panicked: {e}", h.iter().map(|o| menu[*o]).collect::<Vec<_>>().join(" . ")),
-                json!({"big_workspace_history": h.iter().map(|o| menu[*o]).collect::<Vec<_>>()}),
+                format!("{n_initial} modules: after {} (step {step}) a request on {name} panicked: {e}", h.iter().map(|o| menu[*o]).collect::<Vec<_>>().join(" . ")),
+                json!({"big_workspace_history": h.iter().map(|o| menu[*o]).collect::<Vec<_>>(), "initial_modules": n_initial}),
               ));
             }
           }
@@ -435,7 +435,11 @@ fn main() {
 
   // the big workspace (GC slices overlap): all histories of 2 (quick) / 3 (thorough) edits
   let mut big_violations = vec![];
-  let (big_histories, big_queries) = big_workspace_histories(if run.quick() { 2 } else { 3 }, &mut big_violations);
+  let (mut big_histories, mut big_queries) = big_workspace_histories(100, &[0, 1, 2, 3, 4, 5, 6], if run.quick() { 2 } else { 3 }, &mut big_violations);
+  // a workspace of 150 modules (mark cycles span two edits from the start): change one / change all / add one
+  let (h150, q150) = big_workspace_histories(150, &[1, 2, 3], if run.quick() { 2 } else { 3 }, &mut big_violations);
+  big_histories += h150;
+  big_queries += q150;
   for (sig, msg, payload) in big_violations {
     run.violation(&sig, &msg, payload);
   }
